@@ -343,6 +343,11 @@ func (y *c18L2Sys) ops() []c18L2Op {
 			p.HookMaxGas++
 			return opchildtypes.NewMsgUpdateParams(w.Authority, &p)
 		}, "msg"},
+		{"UpdateParams(executors=[e1,e2,e3,e1])", func(w *world.L2, ctx sdk.Context) sdk.Msg {
+			p, _ := w.K.GetParams(ctx)
+			p.BridgeExecutors = []string{world.Addr("e1").String(), world.Addr("e2").String(), world.Addr("e3").String(), world.Addr("e1").String()}
+			return opchildtypes.NewMsgUpdateParams(w.Authority, &p)
+		}, "msg"},
 		{"UpdateOracle(3 voters)", nil, "oracle"},
 		// every pair priced by everyone, under the newest stored timestamp: pairs that have no price yet
 		// are writable, the others are stale — the update is rejected part-way through its write loop
